@@ -84,7 +84,7 @@ def bounds(tier):
     if tier == 'quick':
         return {'classes': QUICK_CLASSES, 'datatypes': ['real', 'complex'], 'depth': 3, 'events_per_class': '18-24',
                 'cross_type_data': False}
-    return {'classes': ALL_CLASSES, 'datatypes': ['real', 'complex'], 'depth': 4, 'events_per_class': '18-24',
+    return {'classes': ALL_CLASSES, 'datatypes': ['real', 'complex'], 'depth': 5, 'events_per_class': '19-25',
             'cross_type_data': 'depth 3, data= switches real<->complex'}
 
 
@@ -119,7 +119,7 @@ def events_for(cls, dt, cross=False):
 def shards(tier):
     out = []
     classes = QUICK_CLASSES if tier == 'quick' else ALL_CLASSES
-    depth = 3 if tier == 'quick' else 4
+    depth = 3 if tier == 'quick' else 5
     for cls in classes:
         for dt in ('real', 'complex'):
             for e1 in events_for(cls, dt):
